@@ -195,7 +195,37 @@ def body_kill(rec, c):
         rec.check(not dk, "C06:same-seed-schedule-kill-different-result", f"{dk[:5]} case={c}")
 
 
-PARTS = {"split": (split_cases, body_split), "kill": (kill_cases, body_kill)}
+# ------------------------------------------- (a') the real TurtleMD engine (double well, files in xyz format)
+@st.composite
+def tmd_cases(draw):
+    N = draw(st.integers(4, 22))
+    pts = sorted(set(draw(st.lists(st.integers(1, N - 1), min_size=1, max_size=2))))
+    moves = draw(st.sampled_from([["sh"] * 8, ["sh", "sh", "wf", "wf", "wf", "wf", "wf", "wf"], ["sh", "wf", "sh", "wf", "sh", "wf", "sh", "sh"]]))
+    dl = draw(st.sampled_from(["off", "on", "all"]))
+    spec = {"engine": "turtlemd", "n": 8, "moves": moves, "workers": 1, "steps": N, "seed": draw(SEEDS), "allowmaxlength": True, "n_jumps": draw(st.sampled_from([2, 6])),
+            "maxlength": draw(st.sampled_from([200, 2000])), "delete_old": dl != "off", "delete_old_all": dl == "all", "zeroswap": None}
+    return {"spec": spec, "N": N, "points": pts}
+
+
+def body_tmd(rec, c):
+    spec, N, pts = c["spec"], c["N"], c["points"]
+    a, cfg_a, res_a = run_chain(spec, [N])
+    b, cfg_b, res_b = run_chain(spec, pts + [N])
+    acc = sum(r["stats"].get("accepted", 0) for r in res_a)
+    nt = spec["seed"] != 0 and acc >= 2
+    rec.case(key=c, nontrivial=nt, classes=["turtlemd", "turtlemd:seed0" if spec["seed"] == 0 else "turtlemd:seed!=0", f"turtlemd:accepted>={min(acc, 3)}"],
+             sample={"spec": spec, "split_points": pts, "accepted_moves": acc} if nt and len(rec.samples) < 3 else None)
+    dk = diff_keys(a, b)
+    if dk:
+        k0 = dk[0]
+        what = "data-file" if k0 == "data" else ("restart-file" if k0 == "restart.toml" else "live-path-files")
+        rec.check(False, f"C06:turtlemd:restart-chain-differs:{what}", f"[{N}] vs {pts + [N]}; differing: {dk[:6]}; first: {first_diff(a.get(k0), b.get(k0))}\n  spec={spec}")
+    if N % 3 == 0:
+        a2, _, _ = run_chain(spec, [N])
+        rec.check(not diff_keys(a, a2), "C06:turtlemd:same-seed-different-run", f"{diff_keys(a, a2)[:5]}")
+
+
+PARTS = {"split": (split_cases, body_split), "kill": (kill_cases, body_kill), "turtlemd": (tmd_cases, body_tmd)}
 
 
 def run(ctx):
@@ -209,9 +239,10 @@ def run(ctx):
         "Non-trivial: (a) split strictly inside, seed != 0, >= 2 accepted moves; (b) >= 1 restart with recorded in-flight jobs. Distinct = digest."
     )
     ctx.assumptions = ["order parameter values are integers (exact at the six decimals of order.txt)",
-                       "TurtleMD variant of the design not built; evidence covers the plug-in engine only"]
+                       "TurtleMD part: the repository's double-well example with an order parameter rounded to six decimals (the statement's scope condition), allowmaxlength=true"]
     run_property(ctx, "split", split_cases, body_split, ctx.pick(300, 4000), shards=ctx.procs, shrink=not ctx.quick)
     run_property(ctx, "kill", kill_cases, body_kill, ctx.pick(400, 5000), shards=ctx.procs, shrink=not ctx.quick)
+    run_property(ctx, "turtlemd", tmd_cases, body_tmd, ctx.pick(48, 480), shards=ctx.procs, shrink=not ctx.quick)
 
 
 def replay(ctx, data):
